@@ -270,6 +270,20 @@ CHECKS['C10'] = dict(
     technique="TLA+ objective/gradient definitions evaluated by TLC at every recorded optimiser evaluation + backtracking machine",
     ref="DESIGN.md section 5 C10")
 
+CHECKS['C15'] = dict(
+    text=("MC_SCML (TLC): the best-checkpoint bookkeeping keeps the FIRST checkpoint attaining the minimum objective. "
+          "Conformance: real SCML / SCML_Supervised fits with the basis and best weights handed to the components builder "
+          "and the distance-difference matrix observed by wrapping the helpers, the mini-batches regenerated from the "
+          "integer seed; TLC (TR_SCML) checks M = sum w_i b_i b_i^T, w >= 0, unit-norm generated bases of n_basis rows, the "
+          "low-rank shape + warning rule (incl. zero active bases), and RE-EXECUTES the documented dual-averaging scheme "
+          "of SCML.tla step by step in exact arithmetic (per-iteration sqrt / quotient witnesses verified, hinge decisions "
+          "and checkpoint objectives computed by TLC) to decide that the reported weights are those of the first lowest "
+          "checkpoint."),
+    note=("delta = 0.001 is taken as 1/1000 (difference 2e-20 relative). A hinge margin within 2^-30 of zero makes the "
+          "replay ambiguous (X15) and is counted, never a violation. max_iter <= 40 in the quick tier."),
+    technique="TLA+ transcription of the dual-averaging scheme re-executed by TLC on recorded inputs (witness-verified) + checkpoint machine",
+    ref="DESIGN.md section 5 C15")
+
 NOT_YET = {}
 
 def main():
